@@ -168,9 +168,6 @@ where
             }
         }
     };
-    let pm = if inf { Pt::Inf } else { Pt::Aff(x.clone(), y.clone()) };
-    let on = curve.on_curve(&pm);
-    let want = inf || (on && curve.mul(&C().r, &pm).is_inf());
     info.class(match &c.p {
         PredR::Pair(_, _) => "arbitrary-pair".to_string(),
         PredR::InfinityFlag(_, _) => "infinity-flag".to_string(),
@@ -184,14 +181,137 @@ where
         PredR::Rescaled(p, _) => format!("rescaled-to-isomorphic-curve:{}", if p.in_subgroup() { "order-r" } else { "other-order" }),
         PredR::BaseFieldPoint(_) => "point-of-E(Fq)-as-pair".to_string(),
     });
+    pred_eval::<G>(&x, &y, inf, info)
+}
+
+/// evaluate the crate predicate on a raw triple and compare with the definition
+fn pred_eval<G: HasPool>(x: &G::F, y: &G::F, inf: bool, info: &mut Info) -> Result<(), String>
+where
+    G::F: Embed + EncFld,
+{
+    let curve = G::curve();
+    let pm = if inf { Pt::Inf } else { Pt::Aff(x.clone(), y.clone()) };
+    let on = curve.on_curve(&pm);
+    let want = inf || (on && curve.mul(&C().r, &pm).is_inf());
     info.class(if want { "member" } else if on { "on-curve-non-member" } else { "off-curve" });
     info.nt_if(on && !inf);
-    let a = G::aff_raw(G::f_c(&x), G::f_c(&y), inf);
+    let a = G::aff_raw(G::f_c(x), G::f_c(y), inf);
     let got = cr("in_subgroup", || G::op_in_subgroup(&a))?;
     if got != want {
         return Err(format!("{} in_subgroup(x={:?}, y={:?}, infinity={}) = {} but (identity or (on curve and [r]P = O)) = {} [on curve: {}]", G::NAME, x, y, inf, got, want, on));
     }
     Ok(())
+}
+
+// ---- the predicate after other calls on the same thread ------------------------------------------------
+
+#[derive(Clone, Debug, Serialize, Deserialize, PartialEq, Eq, Hash)]
+pub enum HStep {
+    /// decode the base point's encoding (checked / unchecked decoder, compressed or not); outcome compared with the model
+    Decode(bool, bool),
+    /// SerDes::deserialize of the base point's image
+    Deser(bool),
+    /// the predicate on the base point itself
+    OnBase,
+    /// the predicate on a pair DERIVED from the base point (x, y): 0: (x, y+d)  1: (x, -y)  2: (x+d, y)
+    /// 3: (beta x, y)  4: (x, d)  5: (d, y)  6: (y, x)  7: (x, y) with the infinity flag set
+    OnDerived(u8, FeR),
+    /// the predicate on an independent case
+    OnOther(PredR),
+}
+
+#[derive(Clone, Debug, Serialize, Deserialize, PartialEq, Eq, Hash)]
+pub struct PredHist {
+    pub group: u8,
+    pub base: PointR,
+    pub steps: Vec<HStep>,
+}
+
+fn pred_hist_strategy() -> BoxedStrategy<PredHist> {
+    let step = prop_oneof![
+        3 => (any::<bool>(), any::<bool>()).prop_map(|(c, k)| HStep::Decode(c, k)),
+        1 => any::<bool>().prop_map(HStep::Deser),
+        2 => Just(HStep::OnBase),
+        6 => (0u8..8, fq_strategy()).prop_map(|(k, d)| HStep::OnDerived(k, d)),
+        1 => point_strategy(true).prop_map(|p| HStep::OnOther(PredR::Curve(p))),
+    ];
+    (0u8..2, prop_oneof![3 => point_strategy(false), 1 => point_strategy(true)], proptest::collection::vec(step, 2..7)).prop_map(|(group, base, steps)| PredHist { group, base, steps }).boxed()
+}
+
+fn check_pred_hist<G: HasPool>(c: &PredHist, info: &mut Info) -> Result<(), String>
+where
+    G::F: Embed + EncFld,
+{
+    let pm = c.base.build::<G>();
+    let member = in_subgroup::<G::F>(&pm);
+    info.class(if member { "base:member" } else { "base:non-member" });
+    let mut primed = false;
+    for (i, st) in c.steps.iter().enumerate() {
+        let ctx = |m: String| format!("step {} ({:?}) of a history on one thread: {}", i, st, m);
+        match st {
+            HStep::Decode(compressed, checked) => {
+                let bytes = encode(&pm, *compressed);
+                let r = G::decode_bytes(*compressed, &bytes, *checked).map_err(&ctx)?;
+                let expect_ok = !*checked || member;
+                if r.is_ok() != expect_ok {
+                    return Err(ctx(format!("decoding the base point's encoding: crate {}, expected {}", if r.is_ok() { "accepts" } else { "rejects" }, if expect_ok { "accept" } else { "reject" })));
+                }
+                primed = true;
+            }
+            HStep::Deser(compressed) => {
+                let bytes = encode(&pm, *compressed);
+                let ok = if G::NAME == "G1" { cr("deserialize", || crt::G1Affine::deserialize(&mut &bytes[..], *compressed).is_ok()) } else { cr("deserialize", || crt::G2Affine::deserialize(&mut &bytes[..], *compressed).is_ok()) }.map_err(&ctx)?;
+                if ok != member {
+                    return Err(ctx(format!("deserialize of the base point's image: crate {}, expected {}", ok, member)));
+                }
+                primed = true;
+            }
+            HStep::OnBase => {
+                let mut tmp = Info::default();
+                match &pm {
+                    Pt::Inf => pred_eval::<G>(&G::F::zero(), &G::F::one(), true, &mut tmp),
+                    Pt::Aff(x, y) => pred_eval::<G>(x, y, false, &mut tmp),
+                }
+                .map_err(&ctx)?;
+                primed = true;
+            }
+            HStep::OnDerived(kind, d) => {
+                if let Pt::Aff(x, y) = &pm {
+                    let d = G::F::embed_fq(&d.fq());
+                    let d1 = if d.is_zero() { G::F::one() } else { d.clone() };
+                    let (qx, qy, inf) = match kind % 8 {
+                        0 => (x.clone(), y.add(&d1), false),
+                        1 => (x.clone(), y.neg(), false),
+                        2 => (x.add(&d1), y.clone(), false),
+                        3 => (x.mul(&beta_in::<G::F>()), y.clone(), false),
+                        4 => (x.clone(), d.clone(), false),
+                        5 => (d.clone(), y.clone(), false),
+                        6 => (y.clone(), x.clone(), false),
+                        _ => (x.clone(), y.clone(), true),
+                    };
+                    let mut tmp = Info::default();
+                    pred_eval::<G>(&qx, &qy, inf, &mut tmp).map_err(&ctx)?;
+                    if primed {
+                        info.class(format!("derived-pair-after-a-successful-call:{}", tmp.classes.last().cloned().unwrap_or_default()));
+                        info.nt();
+                    }
+                }
+            }
+            HStep::OnOther(p) => {
+                let mut tmp = Info::default();
+                check_pred::<G>(&PredCase { group: c.group, p: p.clone() }, &mut tmp).map_err(&ctx)?;
+            }
+        }
+    }
+    Ok(())
+}
+
+fn check_pred_hist_any(c: &PredHist, info: &mut Info) -> Result<(), String> {
+    if c.group == 0 {
+        check_pred_hist::<G1m>(c, info)
+    } else {
+        check_pred_hist::<G2m>(c, info)
+    }
 }
 
 fn check_pred_any(c: &PredCase, info: &mut Info) -> Result<(), String> {
@@ -639,6 +759,7 @@ pub fn def() -> PropDef {
         subs: vec![
             Box::new(Sub { name: "g1-predicate", rule: "G1Affine::in_subgroup on arbitrary coordinate pairs vs model predicate", quick: 8_000, thorough: 120_000, strategy: || boxed(pred_strategy(0)), check: check_pred_any }),
             Box::new(Sub { name: "g2-predicate", rule: "G2Affine::in_subgroup on arbitrary coordinate pairs vs model predicate", quick: 3_000, thorough: 40_000, strategy: || boxed(pred_strategy(1)), check: check_pred_any }),
+            Box::new(Sub { name: "predicate-histories", rule: "2..6 calls on one thread around ONE base point: checked / unchecked decoding and deserialization of its encoding, the predicate on the point itself, then the predicate on pairs derived from it ((x, y+d), (x, -y), (x+d, y), (beta x, y), (x, d), (d, y), (y, x), infinity flag set); every outcome compared with the definition (no dependence on what was accepted before)", quick: 1_500, thorough: 30_000, strategy: || boxed(pred_hist_strategy()), check: check_pred_hist_any }),
             Box::new(Sub { name: "g1-closure", rule: "G1 safe-API programs: every handed-out value is a member", quick: 1_400, thorough: 25_000, strategy: || boxed(prog_strategy(0)), check: check_safe }),
             Box::new(Sub { name: "g2-closure", rule: "G2 safe-API programs: every handed-out value is a member", quick: 500, thorough: 8_000, strategy: || boxed(prog_strategy(1)), check: check_safe }),
         ],
